@@ -207,6 +207,27 @@ def serve_case(res, rng, length, tmp):
                 if len(og) != 1 or og[0].rstrip("\n").split(";")[5][12:].lower() != want.hex():
                     res.violation("parallel-firmware-block-wrong", f"node {on} fetching firmware ({oft},{ofv}) block {oi} got {og!r}", case)
                     return
+            if other is not None and rng.random() < 0.2:
+                # a node updating to (ft, fv) asks for a block of the other loaded firmware (late or retransmitted request
+                # from an earlier update): whatever is answered must be the block of the firmware the response names
+                on, oft, ofv, oimg = other
+                oi = rng.randrange((len(oimg) + 127) // 128 * 8)
+                m0 = len(eng.sent)
+                eng.feed(f"{n};255;4;0;2;{le(oft, ofv, oi)}")
+                og = [l for (_s, _o, l) in eng.sent[m0:]]
+                res.count("cross_firmware_requests")
+                for l in og:
+                    f = l.rstrip("\n").split(";")
+                    if f[:5] != [str(n), "255", "4", "0", "3"]:
+                        continue
+                    hd = words(f[5][:12], 3)
+                    named = {(ft, fv): img + b"\xff" * ((-len(img)) % 128), (oft, ofv): oimg + b"\xff" * ((-len(oimg)) % 128)}.get((hd[0], hd[1])) if hd else None
+                    res.count("cross_firmware_responses")
+                    if hd is None or named is None or hd[2] != oi or f[5][12:].lower() != named[16 * oi:16 * oi + 16].hex():
+                        res.violation("block-response-label-does-not-name-its-data",
+                                      f"node {n} (updating to ({ft},{fv})) asked for block {oi} of loaded firmware ({oft},{ofv}); the response "
+                                      f"{l!r} does not carry block {oi} of the firmware it names", case)
+                        return
             n0 = len(eng.sent)
             eng.feed(f"{n};255;4;0;2;{le(ft, fv, i)}")
             got = [l for (_s, _o, l) in eng.sent[n0:]]
@@ -291,11 +312,12 @@ def finish(agg, tier):
                 "order through Gateway.logic. The served blocks are reassembled and checked: length 16*B, multiple of 128, image "
                 "prefix, <= 128 bytes of 0xFF padding, independent CRC-16/MODBUS == advertised, echo of (type, version, index), "
                 "stability across repeats and nodes. Histories before the image under test: none / a different image loaded "
-                "under the same (type, version) and partly fetched / another firmware served to another node in parallel. distinct = "
+                "under the same (type, version) and partly fetched / another firmware served to another node in parallel (with the nodes under test also asking for blocks of that other loaded firmware: the response must carry the block of the firmware it names). distinct = "
                 "(len mod 16, len mod 128, size bucket, order class, #nodes, hex?, prior history).",
         "floors": [("images_reassembled", c.get("images_reassembled", 0), 300), ("block_requests", c.get("block_requests", 0), 100000),
                    ("intel_hex_loads", c.get("intel_hex_loads", 0), 80), ("intel_hex_with_holes", c.get("intel_hex_with_holes", 0), 20),
-                   ("reloaded_same_id_cases", c.get("reloaded_same_id_cases", 0), 80), ("parallel_firmware_cases", c.get("parallel_firmware_cases", 0), 40)],
+                   ("reloaded_same_id_cases", c.get("reloaded_same_id_cases", 0), 80), ("parallel_firmware_cases", c.get("parallel_firmware_cases", 0), 40),
+                   ("cross_firmware_responses", c.get("cross_firmware_responses", 0), 500)],
         "assumptions": ["independent bitwise CRC-16/MODBUS (poly 0xA001, init 0xFFFF)"],
-        "show": ["images_reassembled", "block_requests", "intel_hex_loads"],
+        "show": ["images_reassembled", "block_requests", "intel_hex_loads", "cross_firmware_responses"],
     }
